@@ -4,8 +4,11 @@
 // passing -- no panic, no out-of-bounds access, no endless loop -- and the dispatch on the first byte follows
 // RFC 9000 section 12.4 Table 3 (frames) / section 17.2, 17.3 (packets).
 //
-//   * `FrameMut` decode (frame/mod.rs, `frames!` macro: `FrameDecoder::decode_frame`), any first byte, <= 16 bytes
-//   * `ProtectedPacket::decode` (packet/mod.rs: `PacketDecoder::decode_packet`), any first byte, <= 24 bytes,
+//   * `FrameMut` decode (frame/mod.rs, `frames!` macro: `FrameDecoder::decode_frame`): NOT in the registry -- three
+//     shapes (arbitrary <= 24 bytes, arbitrary <= 16 bytes, literal first byte 0x00..=0x3f + 23 arbitrary bytes /
+//     first byte >= 0x40 + 7 bytes) all ran into the 1500 s timeout (the last one at 11.7 GB); they are kept in
+//     probes/kani_c05_frame_dispatch_timeout.rs together with `rfc_frame_kind` / `real_frame_kind` below.
+//   * `ProtectedPacket::decode` (packet/mod.rs: `PacketDecoder::decode_packet`), exactly 24 bytes and 0..=10 bytes,
 //     fixed-length destination-connection-id validator (`usize`, the validator used by the default id format)
 //
 // Both are level=bounded (input length); the per-frame reference-parser agreement harnesses live next to the
@@ -139,70 +142,6 @@ fn packet_decode_total(len: usize) -> bool {
     }
     assert!(want != 0 || r.is_err(), "C05/packet.tot/invalid_first_byte_or_truncated_header_rejected");
     r.is_ok()
-}
-
-/// One decode through `FrameMut` with a literal first byte on a buffer of literal length (24 bytes: every frame
-/// type can succeed, NEW_CONNECTION_ID needs 21): with both literal, symbolic execution follows only the arm of the
-/// tag dispatch that this first byte selects (see c05_frames_fixed.rs `run_decoder` for why that matters).
-fn dispatch_one(first: u8) {
-    let mut bytes: [u8; 24] = kani::any();
-    bytes[0] = first;
-    let r = DecoderBufferMut::new(&mut bytes[..]).decode::<FrameMut>();
-    if let Ok((frame, rest)) = &r {
-        // a frame occupies at least its type byte: the caller's `while !payload.is_empty()` loop terminates
-        assert!(rest.len() < 24, "C05/frame.tot/ok_consumes_at_least_one_byte");
-        let kind = real_frame_kind(frame);
-        // 12.4 Table 3: the frame type selects the frame
-        assert!(kind != 0 && kind != 100 && kind == rfc_frame_kind(first), "C05/frame.tot/variant_follows_rfc_type_table");
-    }
-    // 12.4: "An endpoint MUST treat the receipt of a frame of unknown type as a connection error"
-    assert!(rfc_frame_kind(first) != 0 || r.is_err(), "C05/frame.tot/unknown_single_byte_type_rejected");
-}
-
-//@ harness props=C05 tier=thorough level=bounded timeout=1500 bound="every first byte 0x00..=0x3f (all single-byte frame types, defined or not) followed by 23 arbitrary bytes"
-//@ fn FrameDecoder::decode_frame
-//@ fn Frame::decode_mut
-#[kani::proof]
-#[kani::unwind(27)]
-fn vq_c05_frame_dispatch_single_byte_types() {
-    let pick: u8 = kani::any();
-    kani::assume(pick < 64);
-    // 64 calls with a literal first byte each
-    unroll!(64, t, {
-        if pick as usize == t {
-            dispatch_one(t as u8);
-        }
-    });
-    kani::cover!(pick == 0x00, "reach:padding");
-    kani::cover!(pick == 0x03, "reach:ack_ecn");
-    kani::cover!(pick == 0x1e, "reach:handshake_done");
-    kani::cover!(pick == 0x1f, "reach:first_undefined_type");
-    kani::cover!(pick == 0x31, "reach:datagram");
-    kani::cover!(pick == 0x3f, "reach:last_single_byte_type");
-    kani::cover!(true, "reach:end");
-}
-
-//@ harness props=C05 tier=thorough level=bounded timeout=1500 bound="every first byte 0x40..=0xff (multi-byte frame types) followed by 7 arbitrary bytes"
-//@ fn FrameDecoder::decode_frame
-//@ fn FrameDecoder::handle_extension_frame
-//@ fn Frame::decode_mut
-#[kani::proof]
-#[kani::unwind(11)]
-fn vq_c05_frame_dispatch_multi_byte_types() {
-    let mut bytes: [u8; 8] = kani::any();
-    kani::assume(bytes[0] >= 0x40);
-    let first = bytes[0];
-    let r = DecoderBufferMut::new(&mut bytes[..]).decode::<FrameMut>();
-    if let Ok((frame, rest)) = &r {
-        assert!(rest.len() < 8, "C05/frame.tot/ok_consumes_at_least_one_byte");
-        // RFC 9000 defines no frame type above 0x3f (RFC 9221: 0x30/0x31); what this implementation accepts behind a
-        // multi-byte type are its own private extension frames only
-        assert!(real_frame_kind(frame) == 100, "C05/frame.tot/extension_frames_only_behind_multi_byte_types");
-        assert!(first >= 0x80, "C05/frame.tot/extension_types_need_at_least_the_four_byte_form");
-    }
-    kani::cover!(matches!(&r, Ok((Frame::MtuProbingComplete(_), _))), "reach:extension_frame");
-    kani::cover!(r.is_err() && first >= 0xc0, "reach:rejected_eight_byte_type");
-    kani::cover!(true, "reach:end");
 }
 
 //@ harness props=C05 tier=thorough level=bounded timeout=1500 bound="arbitrary datagram of exactly 24 bytes, any first byte; short-header destination connection id length fixed to 4"
